@@ -85,7 +85,7 @@ SEARCH_CAP = 10 ** 9
 F32 = [("x", "u32")]
 F64 = [("x", "u64")]
 TABLES = {}
-for _n in ("floor", "ceil", "trunc", "round", "rint", "lrint", "llrint", "signbit", "isnan", "isinf", "isfinite", "bit_cast"):
+for _n in ("floor", "ceil", "trunc", "round", "rint", "lrint", "llrint", "signbit", "isnan", "isinf", "isfinite", "bit_cast", "sqrt"):
     TABLES[_n + "_f32"] = F32
     TABLES[_n + "_f64"] = F64
 TABLES["copysign_f32"] = [("x", "u32"), ("y", "u32")]
@@ -250,6 +250,96 @@ def arg_bits(fmt, b):
     return b if fmt == 32 else s64(b)
 
 
+# ---------------------------------------------------------------- exact arithmetic on patterns (fma classes)
+from fractions import Fraction as _Q
+
+
+def _fmt(fmt):
+    return (8, 23) if fmt == 32 else (11, 52)
+
+
+def is_inf(fmt, b):
+    ebits, mbits = _fmt(fmt)
+    return (b & ((1 << (ebits + mbits)) - 1)) == (((1 << ebits) - 1) << mbits)
+
+
+def is_fin(fmt, b):
+    return not is_nan(fmt, b) and not is_inf(fmt, b)
+
+
+def exact(fmt, b):
+    """the rational value of a finite pattern"""
+    ebits, mbits = _fmt(fmt)
+    bias = (1 << (ebits - 1)) - 1
+    a = b & ((1 << (ebits + mbits)) - 1)
+    e, m = a >> mbits, a & ((1 << mbits) - 1)
+    mag = m if e == 0 else ((1 << mbits) + m) << (e - 1)
+    v = _Q(mag, 1 << (bias - 1 + mbits))
+    return -v if b >> (ebits + mbits) else v
+
+
+def _ilog2(q):
+    """floor(log2 q) of a positive rational"""
+    k = q.numerator.bit_length() - q.denominator.bit_length()
+    if _Q(2) ** k > q:
+        k -= 1
+    return k
+
+
+def _rne(q):
+    n = q.numerator // q.denominator
+    r = q - n
+    return n + 1 if (r > _Q(1, 2) or (r == _Q(1, 2) and n % 2 == 1)) else n
+
+
+def round_info(fmt, e):
+    """(folds, overflows) for the exact rational e: `folds` = e rounded to nearest even at the precision of the format with
+    an unbounded exponent range is a finite value of the format (GCC's condition for folding a libm builtin through
+    MPFR); `overflows` = the correctly rounded result is infinite"""
+    ebits, mbits = _fmt(fmt)
+    bias = (1 << (ebits - 1)) - 1
+    if e == 0:
+        return True, False
+    a = abs(e)
+    k = _ilog2(a)
+    quantum = _Q(2) ** (k - mbits)
+    v = _rne(a / quantum) * quantum
+    unit = _Q(2) ** (1 - bias - mbits)
+    maxfin = (_Q(2) - _Q(2) ** (-mbits)) * _Q(2) ** bias
+    if k >= 1 - bias:
+        return v <= maxfin, v > maxfin
+    return (v / unit).denominator == 1, False
+
+
+def fma_class(fmt, x, y, z):
+    """recomputed from the case alone: (outside_domain, residual).
+    outside_domain: the fused result is not defined (inf*0, inf-inf among non-NaN arguments) or overflows;
+    residual (finding F-c13-fma-constexpr-unfolded, = Tetl.C13.FmaSqrt.FmaResidual): GCC does not fold the builtin and
+    x, y are finite with z finite or the rounded product overflowing, or inf*0 meets a NaN addend"""
+    nan = [is_nan(fmt, b) for b in (x, y, z)]
+    inf = [is_inf(fmt, b) for b in (x, y, z)]
+    fin = [not nan[i] and not inf[i] for i in range(3)]
+    zero = [fin[i] and exact(fmt, (x, y, z)[i]) == 0 for i in range(3)]
+    prod_invalid = (inf[0] and zero[1]) or (zero[0] and inf[1])
+    sgn = lambda b: b >> (fmt - 1)
+    outside = False
+    if not any(nan):
+        if prod_invalid:
+            outside = True
+        elif (inf[0] or inf[1]) and inf[2] and ((sgn(x) ^ sgn(y)) != sgn(z)):
+            outside = True
+    folds = False
+    prod_over = False
+    if fin[0] and fin[1]:
+        p = exact(fmt, x) * exact(fmt, y)
+        prod_over = round_info(fmt, p)[1]
+        if fin[2]:
+            folds, over = round_info(fmt, p + exact(fmt, z))
+            outside = outside or over
+    residual = (not folds) and ((fin[0] and fin[1] and (fin[2] or prod_over)) or (nan[2] and prod_invalid))
+    return outside, residual
+
+
 # ---------------------------------------------------------------- generator
 _CACHE = {}
 
@@ -350,7 +440,7 @@ def generate(tier, seed):
         dist["boundary" + sfx] = len(tbl)
         for b in tbl:
             a = arg_bits(fmt, b)
-            for fn in ("floor", "ceil", "trunc", "round", "rint", "signbit", "isnan", "isinf", "isfinite", "bit_cast"):
+            for fn in ("floor", "ceil", "trunc", "round", "rint", "signbit", "isnan", "isinf", "isfinite", "bit_cast", "sqrt"):
                 add(mk(fn + sfx, x=a), fn)
             conv_limit = 2.0 ** 63
             val = struct.unpack("<f", struct.pack("<I", b))[0] if fmt == 32 else struct.unpack("<d", struct.pack("<Q", b))[0]
@@ -374,34 +464,10 @@ def generate(tier, seed):
         def val_of(b):
             return struct.unpack("<f", struct.pack("<I", b))[0] if fmt == 32 else struct.unpack("<d", struct.pack("<Q", b))[0]
 
-        def undefined(x, y, z):
-            """overflow of a finite computation or an invalid operation (inf*0, inf-inf): undefined behaviour, hence not a
-            constant expression and outside the domain; the quick tier does not spend a recompilation on such rows"""
-            if any(is_nan(fmt, b) for b in (x, y, z)):
-                return False
-            vx, vy, vz = val_of(x), val_of(y), val_of(z)
-            try:
-                if fmt == 32:
-                    p = struct.unpack("<f", struct.pack("<f", vx * vy))[0]
-                    r = struct.unpack("<f", struct.pack("<f", p + vz))[0]
-                    import fractions
-                    e = fractions.Fraction(vx) * fractions.Fraction(vy) + fractions.Fraction(vz) if all(
-                        v not in (float("inf"), float("-inf")) for v in (vx, vy, vz)) else None
-                    if e is not None:
-                        struct.pack("<f", float(e))
-                else:
-                    p = vx * vy
-                    r = p + vz
-            except (OverflowError, ValueError):
-                return True
-            inf = float("inf")
-            finite_in = all(abs(v) != inf for v in (vx, vy, vz))
-            if r != r or p != p:
-                return True
-            return finite_in and (abs(p) == inf or abs(r) == inf)
-
         def fma_case(x, y, z, tag):
-            if not thorough and undefined(x, y, z):
+            # rows outside the domain (fused result undefined or overflowing) are not constant expressions: each of them
+            # costs the quick tier a recompilation round, so it keeps only the tagged ones (`fma/outside`)
+            if not thorough and tag != "fma/outside" and fma_class(fmt, x, y, z)[0]:
                 return
             add(mk("fma" + sfx, x=arg_bits(fmt, x), y=arg_bits(fmt, y), z=arg_bits(fmt, z)), tag)
 
@@ -436,6 +502,44 @@ def generate(tier, seed):
         for _ in range(3000 if thorough else 500):
             x, y, z = (rnd.choice(tbl) for _ in range(3))
             fma_case(x, y, z, "fma/random")
+        # the two-step evaluation x*y+z overflows although the fused result is finite: inside the domain
+        mx = (((1 << ebits) - 1) << mbits) - 1
+        two, half_ = one + (1 << mbits), one - (1 << mbits)
+        for (x, y, z) in ((mx, two, mx ^ sgn), (mx ^ sgn, two, mx), (two, mx, mx ^ sgn), (mx, one + 1, mx ^ sgn),
+                          (mx - 5, two, (mx - 9) ^ sgn), (mx, two + 1, mx ^ sgn)):
+            fma_case(x, y, z, "fma/cancel-overflow")
+        for _ in range(200 if thorough else 40):
+            x = mx - rnd.getrandbits(mbits)
+            y = one + rnd.getrandbits(mbits)
+            z = f32bits(-val_of(x)) if fmt == 32 else f64bits(-val_of(x))
+            fma_case(x, y, z, "fma/cancel-overflow")
+        # results in the subnormal range (GCC folds the builtin only when the rounded value is exactly a subnormal)
+        eh = (((1 << (ebits - 1)) - 1) - (((1 << (ebits - 1)) - 2 + mbits) // 2 + 1))      # x = y = 2^eh: x*y = half a unit or a quarter
+        tiny = [0, sgn, 1, 1 | sgn, 2, 3, 3 | sgn, (1 << mbits) - 1, 1 << mbits]
+        for de in (-1, 0, 1, 2, 3):
+            for mx_, my_ in ((0, 0), (1 << (mbits - 1), 0), (1 << (mbits - 1), 1 << (mbits - 1)), (1, 1), (3 << (mbits - 2), 0)):
+                x = ((eh + de) << mbits) | mx_
+                y = (eh << mbits) | my_
+                for z in tiny:
+                    fma_case(x, y, z, "fma/underflow")
+                    fma_case(x | sgn, y, z, "fma/underflow")
+        for _ in range(1500 if thorough else 300):
+            bias_ = (1 << (ebits - 1)) - 1
+            tgt = rnd.randint(-(bias_ - 1 + mbits) - 3, -(bias_ - 1) + 3)          # exponent of the product: subnormal range
+            ex = rnd.randint(1, bias_)
+            ey = min(max(tgt + 2 * bias_ - ex, 1), (1 << ebits) - 2)
+            x = (ex << mbits) | rnd.getrandbits(mbits)
+            y = (ey << mbits) | rnd.getrandbits(mbits if rnd.random() < 0.5 else 3)
+            z = rnd.choice(tiny) if rnd.random() < 0.6 else rnd.getrandbits(mbits + 2) | (sgn if rnd.random() < 0.5 else 0)
+            fma_case(x, y, z, "fma/underflow")
+        # an overflowing product with an infinite or NaN addend (fused: the addend), inf*0 with a NaN addend
+        inf_, qn = specials[0], specials[2]
+        big = ((1 << ebits) - 2) << mbits
+        for (x, y, z) in ((big, big, inf_), (big, big, inf_ | sgn), (big | sgn, big, inf_), (big, big, qn), (inf_, 0, qn), (0, inf_ | sgn, qn)):
+            fma_case(x, y, z, "fma/product-overflow")
+        # outside the domain: a few rows only (each is a compile error the check has to map back)
+        for (x, y, z) in ((big, big, one), (inf_, 0, one), (inf_, one, inf_ | sgn)):
+            fma_case(x, y, z, "fma/outside")
     res = (cases, False, dist)
     _CACHE[key] = res
     return res
@@ -607,25 +711,17 @@ def nontrivial(case, rows):
 
 
 def classify(case, k, row):
-    """F-c13-fma-constexpr-double-rounding: the constant-evaluated path of fma computes x*y+z with two roundings.
-    The class is `the two-rounding result differs from the fused one`: exactly the cases where the Lean model of the
-    constant-evaluated path (Model.fmaTwoStep) differs from the specification (Fmt.fma) while every run-time
-    evaluation and the model of the run-time path agree with the specification."""
-    op = case.lines[k].split(" ")[0]
-    if op not in ("fma_f32", "fma_f64") or row.spec == "*":
+    """F-c13-fma-constexpr-unfolded: since the fix 2d96e3e the constant-evaluated path of fma is the fused builtin wherever
+    GCC folds it; the remaining arguments run x*y+z (two roundings, each a possible overflow/invalid operation).  The class
+    is recomputed from the arguments of the case alone, in exact rational arithmetic (`fma_class`, the Python twin of
+    Tetl.C13.FmaSqrt.FmaResidual, the hypothesis of Tetl.C13.Props.fma_paths_partial): no result column is read."""
+    op, a = parse(case.lines[k])
+    if op not in ("fma_f32", "fma_f64"):
         return None
-    try:
-        m = [g.split("/") for g in row.model.split(" ")]
-        s = [g.split("/") for g in row.spec.split(" ")]
-        i = [g.split("/") for g in row.impl.split(" ")]
-    except Exception:
-        return None
-    if len(m) != 3 or len(i) != 3 or any(len(g) != 2 for g in m + s + i):
-        return None
-    two_step_differs = m[0][0] != s[0][0]
-    rt_ok = all(g[1] == s[0][0] for g in i) and all(g[1] == s[0][0] for g in m)
-    ct_is_two_step = all(g[0] == m[0][0] for g in i)
-    return "F-c13-fma-constexpr-double-rounding" if (two_step_differs and rt_ok and ct_is_two_step) else None
+    fmt = 32 if op.endswith("32") else 64
+    m = (1 << fmt) - 1
+    outside, residual = fma_class(fmt, int(a["x"]) & m, int(a["y"]) & m, int(a["z"]) & m)
+    return "F-c13-fma-constexpr-unfolded" if (residual and not outside) else None
 
 
 def group_of(case):
